@@ -224,6 +224,26 @@ pub fn run(ctx: &Ctx) {
             crate::p02_refcodec::judge_decode(b, false, loc);
         }).distinct());
     }
+    // type-info words with unused bits set, inside messages of every protocol version
+    {
+        let highs: [u32; 5] = [0, 1 << 14, 1 << 18, 1 << 31, 0xFFFC_4000];
+        let sp = Space::new(&[2048, highs.len(), 8, 2]);
+        let s2 = sp.clone();
+        ctx.run_family(Family::new("c14.type_info.versions", sp.size(), "one-argument messages: every TYLE x every pattern of the kind bits x FIXP (2048 words) x unused bits {none, STRU, bit 18, bit 31, all} x ALL 8 header versions x byte order, through the parser against the reference decoder", move |i, loc| {
+            let c = s2.coords(i);
+            let k = c[0] as u32;
+            let w = ((k & 7) | ((k >> 3) & 0x7F) << 4 | ((k >> 10) & 1) << 12) | highs[c[1]];
+            let big = c[3] == 1;
+            let mut b = vec![((c[2] as u8) << 5) | if big { 0x03 } else { 0x01 }, 0x00, 0x00, 0x00, 0x41, 0x01, b'A', b'P', b'P', 0, b'C', b'T', b'X', 0];
+            b.extend_from_slice(&if big { w.to_be_bytes() } else { w.to_le_bytes() });
+            b.extend_from_slice(&if big { [0x00, 0x02] } else { [0x02, 0x00] });
+            b.extend_from_slice(b"a\0");
+            b.extend((0..40u8).map(|k| k / 3));
+            let l = b.len();
+            b[3] = l as u8;
+            crate::p02_refcodec::judge_decode(&b, false, loc);
+        }));
+    }
     match ctx.tier {
         Tier::Quick => {
             let highs: Vec<u32> = {
